@@ -461,6 +461,8 @@ static void finish(const char *res, snap_t *snap, int nsnap)
             hexs(g_conn->stream_id, sid, sizeof(sid));
             fprintf(g_out, " sid %s", sid);
         }
+        /* what the application is told about its own waiting elements */
+        fprintf(g_out, " ql %d", xmpp_conn_send_queue_len(g_conn));
         fputc('\n', g_out);
     } else
         fprintf(g_out, " | st - neg 0 sec 0 q 0\n");
